@@ -25,12 +25,16 @@ TYPEOFS = set(v[2] for v in fg.CANDS.values()) | {"double[:]", "float[:]", "int[
 
 
 def _interleaved(cands):
-    """1 if a complex candidate is declared between two candidates of the same real numeric group."""
+    """1 if a complex candidate is declared between two candidates of the same real numeric group, or a real numeric
+    candidate between two complex candidates (the two shapes for which the candidate sort is inconsistent)."""
     for i in range(len(cands)):
         for k in range(i + 2, len(cands)):
             gi, gk = fg.CANDS[cands[i]][0], fg.CANDS[cands[k]][0]
             if gi == gk and gi in ("int", "float"):
                 if any(fg.CANDS[cands[j]][0] == "complex" for j in range(i + 1, k)):
+                    return 1
+            if gi == gk == "complex":
+                if any(fg.CANDS[cands[j]][0] in ("int", "float") for j in range(i + 1, k)):
                     return 1
     return 0
 
